@@ -172,6 +172,10 @@ Theorem c16_catalog_paths_nonempty : catalog_paths_nonempty = true.
 Proof. exact catalog_paths_nonempty_true. Qed.
 Print Assumptions c16_catalog_paths_nonempty.
 
+Theorem c16_catalog_paths_dotted : catalog_paths_dotted = true.
+Proof. exact catalog_paths_dotted_true. Qed.
+Print Assumptions c16_catalog_paths_dotted.
+
 (* rejection clause, the part that is a property of the source text: every type assertion, index and slice expression
    in migrations/, legacy/ and utils/jsonpath has a form that cannot panic or is an accepted site *)
 Theorem c16_assert_sites_total : forall x, In x assert_sites -> form_safe (s_form x) = true \/ site_accepted x = true.
